@@ -136,6 +136,12 @@ pub fn gen_settings(r: &mut Rng, input_len: usize) -> NormalizerSettings {
             s.steps = r.range(4, 64);
             s.chunk_size = r.range(8, 512);
         }
+        9 if r.chance(1, 3) => {
+            // a window whose product steps * chunk_size exceeds usize::MAX: it covers every input
+            let st = *r.pick(&[2usize, 3, 4, 5, 8, 16]);
+            s.steps = st;
+            s.chunk_size = *r.pick(&[1usize << 62, 1usize << 63, usize::MAX, usize::MAX / 2 + 1, usize::MAX / st + 1]);
+        }
         _ => {
             s.steps = r.range(1, 6);
             s.chunk_size = r.range(16, 4096);
